@@ -204,7 +204,7 @@ def run(chk):
         return v if r.random() < 0.5 else -v
 
     fcases = []   # (key, expr, model line, oracle)
-    nfr = 400 if quick else 20000
+    nfr = 400 if quick else 8000
     ERR = "err"
 
     def frs(fr):
@@ -270,7 +270,7 @@ def run(chk):
     mark("fractions")
     # ---------------------------------------------------------------------------------------- datetime / unix
     tcases = []
-    for _ in range(300 if quick else 20000):
+    for _ in range(300 if quick else 10000):
         kind = rng.random()
         whole = rng.choice([0, 1, -1, 59, 60, -60, 3599, 3600, 86399, 86400, -86400, -86401, 951782400, -2208988800,
                             rng.randrange(-10 ** 11, 10 ** 11), rng.randrange(-10 ** 11, 10 ** 11), rng.randrange(-10 ** 6, 10 ** 6)])
@@ -325,7 +325,7 @@ def run(chk):
     # and the round trip must be the identity; for t < 0 the seconds part (t mod 60) is rounded once, so |error| <= 2^-46.
     fts = [59.99999999999999, 119.99999999999999, 0.1, 1e-20, -1e-20, -0.1, 1000000000.1, -1000000000.1, 86399.99999999999,
            4.9e-324, -4.9e-324, 3599.9999999999995, 1e11 - 0.001, -(1e11 - 0.001)]
-    for _ in range(200 if quick else 20000):
+    for _ in range(200 if quick else 10000):
         fts.append(rng.choice([rng.uniform(-1e11, 1e11), rng.uniform(-1e5, 1e5), rng.uniform(-100, 100), 60.0 * rng.randrange(-10 ** 6, 10 ** 6) - rng.choice([2.0 ** -k for k in range(20, 46)])]))
 
     def flit(x):
@@ -507,7 +507,7 @@ def run(chk):
             return [f"a:{len(doc[1])}"] + [x for d in doc[1] for x in mtoks(d)]
         return [f"o:{len(doc[1])}"] + [x for k, v in doc[1] for x in [cps(k)] + mtoks(v)]
 
-    docs = [(gen_doc(rng.randrange(0, 6), simple), simple) for simple in (True, False) for _ in range(120 if quick else 4000)]
+    docs = [(gen_doc(rng.randrange(0, 6), simple), simple) for simple in (True, False) for _ in range(120 if quick else 2500)]
     jexprs = [f"({xexpr(d)}).serialize()" for d, _ in docs] + [f"json_deserialize(({xexpr(d)}).serialize()) == ({xexpr(d)})" for d, _ in docs]
     dumps = eval_exprs(jexprs, chunk=20)
     n = len(docs)
